@@ -9,6 +9,7 @@ package main
 import (
 	"fmt"
 	"os"
+	"path/filepath"
 	"strings"
 	"time"
 
@@ -229,6 +230,102 @@ func changedDefs(bs []func() *progen.Program, call string) string {
 	return ""
 }
 
+// realRetryReattach: a real mrp (with --autoretry) re-attaches to its own
+// pipestance after a transient failure.  While the first job waits at a gate
+// the included declarations are edited; then the job's monitor is killed.  The
+// re-attach of the retry must compare the sources: after a semantic edit mrp
+// must not finish successfully with the results of the edited program, after
+// a cosmetic edit the retry must go through.
+func realRetryReattach(r *ev.Run) {
+	if os.Getenv("VERIF_NO_TIERB") != "" {
+		return
+	}
+	if _, err := psx.TierBRoot(); err != nil {
+		fmt.Println(err)
+		os.Exit(2)
+	}
+	build := func() *progen.Program {
+		return progen.Dataflow(progen.DataflowParams{Kind: "int", Src: "gen", Size: 2, Cons: "add", Extra: "chain"})
+	}
+	p := build()
+	ref0, err := progen.Interpret(p)
+	if err != nil {
+		return
+	}
+	// a semantic edit of the declarations that changes the outputs
+	var p2 *progen.Program
+	var ref2 *progen.RefResult
+	for site := 0; site < 20; site++ {
+		q := build()
+		if !progen.ApplyEdit(q, "change-literal", site) {
+			break
+		}
+		d1, c1 := splitProgram(build())
+		d2, c2 := splitProgram(q)
+		if c1 != c2 || d1 == d2 {
+			continue
+		}
+		if rr, err := progen.Interpret(q); err == nil && progen.EqSlack(ref0.TopOuts, rr.TopOuts, "") != "" {
+			p2, ref2 = q, rr
+			break
+		}
+	}
+	if p2 == nil {
+		r.Inconclusive("real retry re-attach: no semantic edit of the declarations changes the outputs")
+		return
+	}
+	first := "ID." + psx.Psid + ".TOP.GEN.fork0.chnk0.main"
+	for _, kind := range []string{"semantic", "cosmetic"} {
+		d2, _ := splitProgram(p2)
+		if kind == "cosmetic" {
+			d1, _ := splitProgram(build())
+			d2 = cosmeticText("comments", d1)
+		}
+		opts := psx.BOptions{AutoRetry: 1, Gate: []string{first}, Fault: &psx.Fault{Job: first, Kind: "kill-monitor", Times: 1}, Timeout: 90 * time.Second}
+		b, err := psx.StartB(p, &opts)
+		if err != nil {
+			r.Inconclusive("real retry re-attach: " + err.Error())
+			return
+		}
+		edited := false
+		if b.WaitAt(first, 30*time.Second) {
+			os.WriteFile(filepath.Join(b.Dir, "mro", "defs.mro"), []byte(d2), 0o644)
+			edited = true
+		}
+		b.Release(first)
+		res := b.Wait(&opts)
+		r.Eval("real-retry-reattach|" + kind)
+		if !edited || res.TimedOut {
+			r.Inconclusive(fmt.Sprintf("real retry re-attach (%s): the gated job was not reached or mrp did not end (timed out: %v)", kind, res.TimedOut))
+			res.Cleanup()
+			continue
+		}
+		out, _ := progen.ParseJSON([]byte(res.TopOuts))
+		success := res.Exit == 0 && strings.Contains(res.Console, "Pipestance completed successfully")
+		switch kind {
+		case "semantic":
+			if success && out != nil && progen.EqSlack(ref2.TopOuts, out, "") == "" {
+				r.Outcome("violation")
+				r.Report(ev.Finding{Sig: "C15:real-retry-attach-accepted-semantic",
+					What: "a real mrp with --autoretry=1: the included declarations were edited semantically while it ran, a transient failure made it re-attach to its own pipestance, and it completed successfully with the results of the EDITED program: " + ev.Short(res.TopOuts, 200),
+					Case: Case{Base: -1, Kind: "real-retry-reattach-semantic"}})
+			} else {
+				r.Outcome(fmt.Sprintf("real-retry:semantic:exit=%d", res.Exit))
+			}
+		case "cosmetic":
+			if !success || out == nil || progen.EqSlack(ref0.TopOuts, out, "") != "" {
+				r.Outcome("violation")
+				r.Report(ev.Finding{Sig: "C15:real-retry-attach-refused-cosmetic",
+					What: fmt.Sprintf("a real mrp with --autoretry=1: comments were added to the included declarations while it ran; the automatic retry after a transient failure did not complete with the original results (exit %d): %s", res.Exit, ev.Short(psx.ConsoleTail(res.Console, 6), 400)),
+					Case: Case{Base: -1, Kind: "real-retry-reattach-cosmetic"}})
+			} else {
+				r.Outcome("real-retry:cosmetic:ok")
+			}
+		}
+		res.Cleanup()
+	}
+}
+
 func lockHistories(r *ev.Run, bs []func() *progen.Program) {
 	p := bs[1]()
 	var stages []string
@@ -306,7 +403,7 @@ func main() {
 	kinds := append(append([]string{}, progen.SemanticEdits...), progen.CosmeticEdits...)
 	kinds = append(kinds, "reformat", "comments", "whitespace")
 	r.Rule = fmt.Sprintf("%d base programs (nested sub-pipelines, map calls over arrays and typed maps, split stage, struct narrowing, projections, preflight, aliases, nested disabled modifiers, file types, retains, volatile) x EVERY applicable site of each edit kind: semantic %v; cosmetic %v + reformat/comments/whitespace. "+
-		"EquivalentCall must be true in both directions for cosmetic and false in both for semantic edits; the first site of every (base, kind) is also driven through a real pipestance: InvokePipeline with the original, ReattachToPipestance(checkSrc) with the edited sources; lock histories: attach while locked / after unlock. "+
+		"EquivalentCall must be true in both directions for cosmetic and false in both for semantic edits; the first site of every (base, kind) is also driven through a real pipestance: InvokePipeline with the original, ReattachToPipestance(checkSrc) with the edited sources; lock histories: attach while locked / after unlock; and a real mrp (--autoretry=1) whose included declarations are edited (semantically / cosmetically) while its first job waits at a gate and whose re-attach after a transient failure must compare the sources. "+
 		"distinct = distinct (base, edit kind, site); non-trivial = the edited program compiles and differs from the original",
 		len(bs), progen.SemanticEdits, progen.CosmeticEdits)
 	type item struct{ c Case }
@@ -351,6 +448,7 @@ func main() {
 		}
 	}
 	lockHistories(r, bs)
+	realRetryReattach(r)
 	r.Assume("edits the repository documents as ignored (retain, resources, volatile, chunk parameters) are not in the catalogue")
 	r.Finish()
 }
